@@ -155,7 +155,7 @@ func ruleExtractorLocks(c *core.Ctx) {
 	c.Check("C18-R1", "pdf.Extractor/census", "the number of guarded accesses has not dropped below what was confirmed by reading", func(o *core.Ob) {
 		o.Count(nAcc)
 		o.Fact("%d accesses to cache/wip outside the constructor", nAcc)
-		o.Require(nAcc >= 10, "only %d accesses to Extractor.cache/wip found, expected at least 10", nAcc)
+		o.Shape(nAcc >= 10, "only %d accesses to Extractor.cache/wip found, expected at least 10", nAcc)
 	})
 }
 
@@ -221,8 +221,8 @@ func rulePublication(c *core.Ctx) {
 		info := fn.Info()
 		looks := cacheLookups(g, "cache")
 		stores := extractorStores(g, "cache")
-		o.Require(len(looks) == 2, "expected two lookups (one per view), found %d", len(looks))
-		o.Require(len(stores) == 2, "expected two stores (one per view), found %d", len(stores))
+		o.Shape(len(looks) == 2, "expected two lookups (one per view), found %d", len(looks))
+		o.Shape(len(stores) == 2, "expected two stores (one per view), found %d", len(stores))
 		for _, st := range stores {
 			o.At(fn.Site(st.Stmt, "store under "+core.ExprStr(st.Index)))
 			ok := false
@@ -259,7 +259,7 @@ func rulePublication(c *core.Ctx) {
 		stores := extractorStores(g, "cache")
 		if len(looks) != 1 || len(stores) != 1 {
 			o.Count(1)
-			o.Fail("expected one lookup and one store, found %d/%d", len(looks), len(stores))
+			o.Unrec("expected one lookup and one store, found %d/%d", len(looks), len(stores))
 			return
 		}
 		o.At(fn.Site(looks[0].V.AST, "lookup"))
@@ -287,7 +287,7 @@ func rulePublication(c *core.Ctx) {
 		cs := callVertices(g, "pdf.(*Extractor).cacheStoreOrLoad")
 		if len(cs) != 1 {
 			o.Count(1)
-			o.Fail("expected one cacheStoreOrLoad call, found %d", len(cs))
+			o.Unrec("expected one cacheStoreOrLoad call, found %d", len(cs))
 			return
 		}
 		o.At(fn.Site(cs[0].Call, "publish"))
@@ -391,7 +391,7 @@ func ruleDecodeExclusive(c *core.Ctx) {
 		ins := extractorStores(g, "wip")
 		if len(ins) != 1 {
 			o.Count(1)
-			o.Fail("expected one insertion into wip, found %d", len(ins))
+			o.Unrec("expected one insertion into wip, found %d", len(ins))
 			return
 		}
 		o.At(fn.Site(ins[0].Stmt, "marker inserted"))
@@ -400,7 +400,7 @@ func ruleDecodeExclusive(c *core.Ctx) {
 		lc := cacheLookups(g, "cache")
 		lw := cacheLookups(g, "wip")
 		if len(lc) != 1 || len(lw) != 1 {
-			o.Fail("expected one cache lookup and one wip lookup, found %d/%d", len(lc), len(lw))
+			o.Unrec("expected one cache lookup and one wip lookup, found %d/%d", len(lc), len(lw))
 			return
 		}
 		o.Require(okEdgeGuard(g, ins[0].V, lc[0].Ok, false), "the marker is inserted although the value may already be cached")
@@ -576,7 +576,7 @@ func ruleReaderImmutable(c *core.Ctx) {
 				return true
 			})
 		}
-		o.Require(n >= 8, "only %d writes to Reader fields found, expected at least 8 (all in constructors)", n)
+		o.Shape(n >= 8, "only %d writes to Reader fields found, expected at least 8 (all in constructors)", n)
 	})
 	// the same through aliases: no Reader method other than the constructors (and Close) stores
 	// through memory reachable from the Reader (e.g. through a *xRefEntry taken from the table)
@@ -968,7 +968,7 @@ func ruleNoForeignAppend(c *core.Ctx, rule string, floor int, pkgs ...string) {
 			})
 		}
 		o.Count(1)
-		o.Require(n >= floor, "only %d appends to fields found", n)
+		o.Shape(n >= floor, "only %d appends to fields found", n)
 	})
 }
 
@@ -1070,7 +1070,7 @@ func ruleCloseOnce(c *core.Ctx) {
 	c.Check("C18-R8", "decoded-readers/close-once", "no decoded-stream reader is closed twice on one path (its pooled decompressor would be handed to two later streams)", func(o *core.Ob) {
 		o.Count(n)
 		o.Fact("%d reader variables inspected", n)
-		o.Require(n >= 5, "only %d reader variables found", n)
+		o.Shape(n >= 5, "only %d reader variables found", n)
 		o.Sites = append(o.Sites, badSites...)
 		for _, b := range bad {
 			o.Fail("%s", b)
@@ -1141,6 +1141,6 @@ func rulePoolPutOwnership(c *core.Ctx, rule string) {
 				}
 			}
 		}
-		o.Require(n >= 2, "only %d Pool.Put calls found", n)
+		o.Shape(n >= 2, "only %d Pool.Put calls found", n)
 	})
 }
